@@ -5,6 +5,7 @@
 #include <ctpg/ctpg.hpp>
 #include <cstdio>
 #include <vector>
+#include <initializer_list>
 #include <type_traits>
 namespace ht
 {
@@ -56,6 +57,13 @@ struct Wrap
     Wrap(const Tr& t) : from(t.id) {}
     Wrap(Tr&& t) : from(t.id) {}
     Wrap(TrMO&& t) : from(t.id) {}
+};
+// a list type as std::vector is one: a braced list of elements builds that list, parentheses around a number build a COUNT
+struct ListT
+{
+    std::vector<int> items;
+    ListT(std::initializer_list<int> il) : items(il) {}
+    explicit ListT(int count) : items(size_t(count < 0 ? 0 : count), 0) {}
 };
 inline void check(bool ok, const char* cid, const char* what)
 {
